@@ -1,4 +1,4 @@
-use crate::delta::{DiffType, InMergeConflict, MergeParents, State, StateMachine};
+use crate::delta::{DiffType, InMergeConflict, MergeParents, Source, State, StateMachine};
 use crate::handlers::diff_header::{
     get_repeated_file_path_from_diff_line, get_two_file_paths_from_diff_line, FileEvent,
 };
@@ -6,7 +6,15 @@ use crate::handlers::diff_header::{
 impl StateMachine<'_> {
     #[inline]
     fn test_diff_header_diff_line(&self) -> bool {
-        self.line.starts_with("diff ")
+        // (in the output of git only its own forms: with `git diff --word-diff` hunk lines have
+        // no marker column, and a line of a shell script may well start with `diff -u`)
+        if self.source == Source::GitDiff {
+            ["diff --git ", "diff --cc ", "diff --combined "]
+                .iter()
+                .any(|s| self.line.starts_with(s))
+        } else {
+            self.line.starts_with("diff ")
+        }
     }
 
     #[allow(clippy::unnecessary_wraps)]
